@@ -53,7 +53,7 @@ def gen_body(rnd, ca, plat):
 def correspond(ctx):
     ca = core.impl_module()
     rnd = random.Random(ctx.seed)
-    n = 260 if ctx.tier == "quick" else 5000
+    n = 260 if ctx.tier == "quick" else 1500
     cases, nontrivial = [], set()
     metas = []
     for _ in range(n):
@@ -82,7 +82,7 @@ def correspond(ctx):
         if not isinstance(impl, core.Err):
             nontrivial.add(repr((lines, to)))
     # single ACEs and addresses
-    for _ in range(200 if ctx.tier == "quick" else 4000):
+    for _ in range(200 if ctx.tier == "quick" else 2000):
         plat = rnd.choice(["ios", "nxos"])
         to = OTHER[plat]
         a = acegen.rand_ace(rnd, plat, groups=False)
